@@ -198,8 +198,22 @@ def replay_case(prop, subname, jcase):
     mod = importlib.import_module(f'vf.props.{prop.lower()}')
     sub = {s.name: s for s in mod.SUBCHECKS}[subname]
     case = from_jsonable(jcase)
+    import signal
+    hang = getattr(sub, 'hang_is_violation', False)
+    limit = min(CASE_TIMEOUT_S, 30) if hang else CASE_TIMEOUT_S
+    signal.signal(signal.SIGALRM, _alarm)
+    signal.setitimer(signal.ITIMER_REAL, limit)
     try:
-        sub.fn(case, Ctx())
+        try:
+            sub.fn(case, Ctx())
+        finally:
+            signal.setitimer(signal.ITIMER_REAL, 0)
+    except CaseTimeout:
+        if not hang:
+            return {'status': 'inconclusive'}
+        v = Violation('nontermination',
+                      f'the call did not return within {limit} s (cases of '
+                      f'this sub-check take milliseconds)')
     except Violation as exc:
         v = exc
     except Inconclusive:
